@@ -15,14 +15,14 @@ GRAMMAR = r"""
 Model: imports*=Import defs*=Def uses*=Use;
 Import: 'import' importURI=STRING;
 Def: 'def' name=ID ('{' subs+=Def '}')?;
-Use: 'use' name=ID '->' ref=[Def%s];
+Use: 'use' name=ID '->' ref=[Def%s] (',' more+=[Def%s][','])?;
 Comment: /\/\/.*?$/;
 """
 GRAMMAR_FQN = GRAMMAR.replace("Comment:", "FQN: ID('.'ID)*;\nComment:")
 
 
 def grammar(ref_suffix="", fqn=False):
-    return (GRAMMAR_FQN if fqn else GRAMMAR) % ref_suffix
+    return (GRAMMAR_FQN if fqn else GRAMMAR) % (ref_suffix, ref_suffix)
 
 
 @st.composite
